@@ -279,7 +279,7 @@ def run(tier):
             return None
         r['observed'] = r['observed'][1:]
         return r
-    common.binding_selftest('c13', 'C13_Data', recs, _corrupt)
+    common.binding_selftest('c13', 'C13_Data', [r for r in recs if r['id'] not in rejects], _corrupt)
     rc = v.finish()
     common.cleanup(work)
     common.write_evidence(
